@@ -12,6 +12,13 @@ def posOfName : String → Option Pos
   | "frameAttr" => some .frameAttr
   | _ => none
 
+def placeOfName : String → Option Place
+  | "top" => some .top
+  | "defcal" => some .defcal
+  | "defcalMeasure" => some .defcalMeasure
+  | "defcircuit" => some .defcircuit
+  | _ => none
+
 private def strTags (s : String) : List String :=
   (if s.toList.contains '"' then ["quote"] else []) ++
   (if s.toList.contains '\\' then ["backslash"] else []) ++
@@ -20,6 +27,24 @@ private def strTags (s : String) : List String :=
   [s!"len{min s.length 8}"]
 
 private def special (s : String) : Bool := s.toList.contains '"' || s.toList.contains '\\'
+
+private def posCase (pl pn : String) (s : String) (out : Sexp) : CaseResult :=
+  match placeOfName pl, posOfName pn with
+  | some place, some p =>
+    let t := template place p
+    let text := t.print s.toList
+    let back := t.read text
+    let mOut : Sexp := .list [.atom "printed", .str (String.ofList text),
+      match back with
+      | some b => .list [.atom "reparsed", .str (String.ofList b)]
+      | none => .list [.atom "err"]]
+    -- spec: the implementation re-parsed its own text to the original string
+    let specOk := match out with
+      | .list [.atom "printed", _, .list [.atom "reparsed", .str b]] => b == s
+      | _ => false
+    { agree := mOut == out, specOk := specOk, nontrivial := special s,
+      tags := s!"pos-{pn}" :: s!"place-{pl}" :: strTags s, detail := s!"model={mOut} impl={out}" }
+  | _, _ => .bad s!"unknown position {pl}/{pn}"
 
 def handle (inp out : Sexp) : CaseResult :=
   match inp with
@@ -40,22 +65,8 @@ def handle (inp out : Sexp) : CaseResult :=
       | _ => false
     { agree := mOut == out, specOk := specOk, nontrivial := special s,
       tags := "quote" :: strTags s, detail := s!"model={mOut} impl={out}" }
-  | .list [.atom "pos", .atom pn, .str s] =>
-    match posOfName pn with
-    | none => .bad s!"unknown position {pn}"
-    | some p =>
-      let text := printAt p s.toList
-      let back := readAt p text
-      let mOut : Sexp := .list [.atom "printed", .str (String.ofList text),
-        match back with
-        | some b => .list [.atom "reparsed", .str (String.ofList b)]
-        | none => .list [.atom "err"]]
-      -- spec: the implementation re-parsed its own text to the original string
-      let specOk := match out with
-        | .list [.atom "printed", _, .list [.atom "reparsed", .str b]] => b == s
-        | _ => false
-      { agree := mOut == out, specOk := specOk, nontrivial := special s,
-        tags := s!"pos-{pn}" :: strTags s, detail := s!"model={mOut} impl={out}" }
+  | .list [.atom "pos", .atom pn, .str s] => posCase "top" pn s out
+  | .list [.atom "placed", .atom pl, .atom pn, .str s] => posCase pl pn s out
   | _ => .bad s!"undecodable input {inp}"
 
 end QV.C07
